@@ -516,7 +516,7 @@ def parse_host(
         # IPv6 address with a port
         pos = host.rfind(']:')
         if pos != -1:
-            return (host[1:pos], int(host[pos + 2 :]))
+            return (host[1:pos], _parse_port(host[pos + 2 :], default_port))
         else:
             return (host[1:-1], default_port)
 
@@ -529,7 +529,21 @@ def parse_host(
     # only a single colon, so we should have an IPv4 address
     # or a domain name plus a port
     name, _, port = host.partition(':')
-    return (name, int(port))
+    return (name, _parse_port(port, default_port))
+
+
+def _parse_port(port: str, default_port: Optional[int]) -> Optional[int]:
+    # NOTE: RFC 3986 allows the port to be empty ("example.com:"), RFC 7239
+    #   allows an obfuscated "_port" in Forwarded, and clients may send
+    #   anything; fall back to the default port rather than raise.
+    if port.isascii() and port.isdigit():
+        try:
+            return int(port)
+        except ValueError:  # pragma: nocover
+            # More digits than int() is willing to convert
+            pass
+
+    return default_port
 
 
 def unquote_string(quoted: str) -> str:
